@@ -3,4 +3,4 @@ From PP Require Import Base.Lines Probing.ProbingDefs Tools.DedupeDefs Tools.Fil
 Extraction "model.ml" Z.of_N Z.to_N Z.of_nat Z.to_nat N.of_nat N.to_nat N.add N.mul Z.opp
   records unrecords lines_of lines_of_utf8_tool lines_of_parallel bytes_of remove_long_lines remove_invalid_utf8 remove_invalid_utf8_base64
   subtract_lines commoncrawl_dedupe strip_spaces wf_utf8 decode1 sc_filter sc_line_keep simple_cleaning
-  subtract_spec cc_spec subtract_insert_key subtract_lookup_key commoncrawl_dedupe_key.
+  remove_long_lines_loop remove_invalid_utf8_loop simple_cleaning_loop subtract_spec cc_spec subtract_insert_key subtract_lookup_key commoncrawl_dedupe_key.
